@@ -18,11 +18,11 @@ REQUIRED_CLASSES = {t: ["names:equal", "names:disjoint", "names:prm_contained_in
                         "names:overlapping", "order:permuted_levels", "keys:equal_tuples_in_permuted_level_order", "levels:3", "unnamed_level", "keys:int", "keys:str",
                         "keys:interval", "keys:coinciding_positions", "lengths:equal", "lengths:unequal", "obj:Series",
                         "obj:DataFrame", "prm:Series", "prm:DataFrame", "prm:scalar", "prm:array", "prm:array_float64", "prm:array_int",
-                        "prm:array_float32", "prm:list_of_int", "end_to_end:woehler"]
+                        "prm:array_float32", "prm:list_of_int", "end_to_end:woehler", "index_object_shared_with_sibling"]
                     for t in ("quick", "thorough")}
 REQUIRED_MONITORS = ["contract:operands_unchanged", "contract:identical_result_index",
                      "contract:result_row==original_value_for_key", "contract:no_original_row_lost",
-                     "scalar/array:values", "end_to_end==scalar_loop"]
+                     "scalar/array:values", "end_to_end==scalar_loop", "sibling_on_same_index_unchanged", "repeated_broadcast_identical"]
 RULE = ("seeded operand pairs: object and parameter as Series/DataFrame over 1..3 index levels drawn from a pool of names (equal, "
         "disjoint, one contained in the other, overlapping with all shared keys present in both), level order permuted, "
         "int/str/interval keys, key sets chosen so that positional codes coincide, equal and unequal lengths, unnamed "
@@ -169,11 +169,25 @@ def run_case(case, ctx):
     ctx.tag("obj:" + type(obj).__name__, "prm:" + type(prm).__name__)
     ctx.tag("lengths:equal" if len(obj) == len(prm) else "lengths:unequal")
     ctx.nontrivial(len(obj) >= 2 and len(prm) >= 2)
+    # other objects of the caller built on the very same pandas Index objects (a load Series next to its sibling columns)
+    sib_obj = pd.Series(np.arange(len(obj), dtype=float), index=obj.index)
+    sib_prm = pd.Series(np.arange(len(prm), dtype=float), index=prm.index)
+    names_before = (list(obj.index.names), list(prm.index.names))
+    ctx.tag("index_object_shared_with_sibling")
     try:
-        Broadcaster(obj).broadcast(prm)
+        r1 = Broadcaster(obj).broadcast(prm)
+        r2 = Broadcaster(obj).broadcast(prm)
     except Exception as e:
         ctx.fail("broadcast_raised", observed=f"{type(e).__name__}: {e}"[:300],
                  detail={"obj_levels": obj_names, "prm_levels": prm_names, "config": cfg})
+        return
+    after = (list(sib_obj.index.names), list(sib_prm.index.names))
+    ctx.check("sibling_on_same_index_unchanged", after == names_before and (list(obj.index.names), list(prm.index.names)) == names_before,
+              observed={"sibling_names_after": after, "operand_names_after": (list(obj.index.names), list(prm.index.names))}, expected=names_before,
+              detail={"obj_levels": obj_names, "prm_levels": prm_names, "config": cfg})
+    same = all(type(a) is type(b) and list(a.index.names) == list(b.index.names) and a.index.equals(b.index) and a.equals(b) for a, b in zip(r1, r2))
+    ctx.check("repeated_broadcast_identical", same, observed={"first_names": [list(a.index.names) for a in r1], "second_names": [list(b.index.names) for b in r2]},
+              detail={"obj_levels": obj_names, "prm_levels": prm_names, "config": cfg})
 
 
 def _scalar_array(ctx, rng, Broadcaster):
